@@ -387,6 +387,33 @@ example :
 section
 variable {F : Type} (fo : C08.FloatOps F)
 
+/-! ### the C14 judge's view inside the composed statement
+
+The run-time judge (`svcMatches`: `varMatches`, `actMatches`) and the driver's correspondence keep
+C14's own minimal client model.  These theorems relate what that judge compares to the objects of
+C05's `mirror` in `client_sees_definition_c05` / `client_sees_device_tree_c05`. -/
+
+/-- the variable object in C05's mirror of the served description of `vd` carries the definition's
+    name, data type and evented flag (the untyped part of `varMatches`) -/
+theorem judge_var_in_mirror (nonStrict : Bool) (fs : Facts) (vd : VarDef) (m : C05.VarM F)
+    (h : C05.mirrorVar fo Gen.C08Types.table nonStrict (specOfVar fs vd) = .ok m) :
+    m.name = C05.stripWs vd.name ∧ m.dataType = vd.dtype ∧ m.sendEvents = vd.evented :=
+  mirror_var_header fo _ nonStrict fs vd m h
+
+/-- … and the action object carries exactly the argument list C14's `actMatches` compares: the
+    in-arguments then the out-arguments, each with its direction and related variable's name -/
+theorem judge_action_in_mirror (vars : List (C05.VarM F)) (sa : SAct) (m : C05.ActM)
+    (h : C05.mirrorAction vars (specOfAct sa) = .ok m) :
+    m.name = sa.name
+    ∧ m.args.map (fun g => (g.name, g.direction, g.related))
+        = sa.ins.map (fun x => (x.name, "in".toList, x.var.name)) ++ sa.outs.map (fun x => (x.name, "out".toList, x.var.name)) := by
+  obtain ⟨h1, _⟩ := C05.args_bound_by_name vars (specOfAct sa) m h
+  refine ⟨?_, ?_⟩
+  · have := C05.actionOf_name _ _ _ m (by simpa [C05.mirrorAction] using h)
+    simpa [specOfAct] using this
+  · rw [h1]
+    simp [specOfAct, specOfArg, C05.completeArg, List.filterMap_append, List.filterMap_map, Function.comp_def]
+
 end
 
 end Upnp.C14
